@@ -30,8 +30,8 @@ def add_corpus(chk, res, name, bound):
 def run(tier, seed):
     chk = Check("C01", tier, seed, "other")
     try:
-        from ..kernels import c01_lowering
-        for k in c01_lowering.KERNELS:
+        from ..kernels import c01_lowering, c01_shapes
+        for k in c01_lowering.KERNELS + c01_shapes.KERNELS:
             chk.add_kernel(run_kernel(k, tier))
     except ImportError:
         pass
